@@ -19,8 +19,7 @@ enforce: spifconf_parse_line
 replace: spiftool_chomp, spiftool_get_word, spiftool_get_pword, spifconf_shell_expand, spifconf_open_file, spiftool_temp_file, spifconf_register_context_state, spifconf_register_fstate, v_ctx_lookup
 backend: sat
 timeout: 400
-mem: 16
-objbits: 10
+objbits: 9
 funcs: v_ctx_lookup, vhandler
 */
 #include "vprelude.h"
